@@ -755,3 +755,15 @@ def _(e, c, a): return Opaque('io::ErrorKind', 'Other')
 
 @model(r'^<(io::)?Error as From<(io::)?ErrorKind>>::from$|^(io::)?Error::(new|other)$')
 def _(e, c, a): return Opaque('io::Error', 'from-kind')
+
+
+@model(r'SystemTime::duration_since$')
+def _(e, c, a):
+    x = un(a[0]); return Ok(Struct('Duration', [x.f[0].v, x.f[1].v]))
+
+
+@model(r'crossbeam_channel::Receiver(<.*>)?::(len|is_empty)$')
+def _(e, c, a):
+    ch = un(a[0]).f[0].v
+    q = e.notes.setdefault('chanq', {}).setdefault(ch.name, [])
+    return len(q) if c.rstrip().endswith('len') else not q
